@@ -11,7 +11,13 @@ Per run:  (1) source-shape obligations: the formula lines of _lncomb/_cached_pro
               ValueError <-> model refusal);
           (3) the property predicates evaluated directly on the implementation: total conserved, two-stage == one-stage,
               axis order irrelevant, 1/i fixed point, mask spreading == support of the exact weights,
-              fold(project) == project(fold) and folded projection == fold(project(unfold)), upward projection raises.
+              fold(project) == project(fold) and folded projection == fold(project(unfold)), upward projection raises;
+          (4) large axes (gen_large): sample sizes 56 .. 200 and 1020 with SPARSE masks and data of huge dynamic range -- the regime
+              where the smallest positive weight 1/C(N,N/2) is below any float tolerance (2.2e-16 from N = 56, 1e-59 at 200, 3.5e-306 at
+              1020), so that code deciding "contributes" by magnitude instead of by the least/most window departs from the theorem
+              only in the tails of the hypergeometric: exact mask equality against integer binomials and against the Coq model
+              (mask-only evaluation, proved equal to the model's mask), data against exact rationals.  A changed formula line of the
+              projection code widens this search (every masked position, more sizes) before 'no-failing-input-found' is reported.
 """
 import ast, itertools, json, math, os
 from fractions import Fraction
@@ -454,7 +460,7 @@ def large_case(rng, cid, N, layout, folded, mkind, dkind, n, corners, sweep_pos=
     p0 = N // 2 if mkind != 'mid' else N // 2 + 2
     if dkind == 'sparse':
         data = [0.0] * size
-        # (weight * value must stay a normal float64: weights go down to 1e-59 at N = 200, 4e-300 at N = 1000)
+        # (weight * value must stay a normal float64: weights go down to 1e-59 at N = 200, 3.5e-306 at N = 1020)
         data[flat(p0, rng.randrange(s + 1))] = math.ldexp(odd(), rng.choice([-760, -760, 0, 600] if N <= 200 else [0, 0, 300, 600]))
     elif dkind == 'spike':
         data = [math.ldexp(odd(), -650) for _ in range(size)]
@@ -483,9 +489,9 @@ def gen_large(ctx, first_id, widened):
     masks / data (one interior entry) and a target well below N, in the tails of the hypergeometric.
     N x {1-D, 2-D with one large axis} x {unfolded, folded} x mask kind x target n in {N/2, N/4, 3, 1}; data kind chosen
     by a Latin rule so that every (N, layout, folded, mask kind) meets all four data kinds.  Every case also runs
-    two-stage, axis order, fold consistency (impl) and goes through the Coq model.
+    two-stage, axis order, fold consistency (impl) and goes through the Coq model (mask; data too for the smallest sizes).
     widened (a source-shape obligation of the projection code is broken, or thorough tier): more sizes, both 2-D layouts
-    for every N, and a sweep of a single masked entry over every position (mask predicate only, no Coq)."""
+    for every N, and a sweep of a single masked entry over every position (exact-Q data model skipped)."""
     rng = ctx.rng
     cases = []
     cid = first_id
@@ -497,21 +503,19 @@ def gen_large(ctx, first_id, widened):
         for layout in layouts:
             for folded in (False, True):
                 targets = [N // 2, N // 4, 3, 1]
-                if ctx.quick and layout != '1d' and folded:
-                    targets = [N // 2, 3] if a % 2 == 0 else [N // 4, 1]
                 for mi, mkind in enumerate(LARGE_MASKS):
                     for n in targets:
                         ti = [N // 2, N // 4, 3, 1].index(n)
                         dkind = LARGE_DATA[(mi + ti) % 4]
                         corners = False if (layout == '1d' and mkind in ('none', 'mid', 'quarter')) else (cid % 2 == 1)
                         cases.append(large_case(rng, cid, N, layout, folded, mkind, dkind, n, corners)); cid += 1
-    # sample size 1000 (weights down to 4e-300, still normal float64 numbers): anything that decides 'contributes' / 'negligible' by
+    # sample size 1020 (weights down to 1/C(1020,510) = 3.5e-306, still normal float64 numbers): anything that decides 'contributes' / 'negligible' by
     # a tiny threshold.  1-D, Python-side predicates only (exact mask, exact rational entries, two-stage, fold identities)
     for folded in (False, True):
         for mi, mkind in enumerate(('none', 'mid', 'quarter')):
-            for ti, n in enumerate((500, 250, 3)):
+            for ti, n in enumerate((510, 255, 3)):
                 dkind = ('sparse', 'spike', 'counts')[(mi + ti) % 3]
-                c = large_case(rng, cid, 1000, '1d', folded, mkind, dkind, n, False)
+                c = large_case(rng, cid, 1020, '1d', folded, mkind, dkind, n, False)
                 c['nocoq'] = True
                 cases.append(c); cid += 1
     if widened:
@@ -528,11 +532,11 @@ def gen_large(ctx, first_id, widened):
 
 
 def gen_bigweights(ctx):
-    """weight vectors at proj_from = 400 and 1000 (smallest weights 1e-120 / 4e-300, still normal float64 numbers): support and
+    """weight vectors at proj_from = 400 and 1020 (smallest weights 1e-120 / 3.5e-306, still normal float64 numbers): support and
     value against exact integer binomials on the Python side (the Coq comparison stops at 200, where the log-gamma error
     leaves a factor 30 below its tolerance)"""
     out = []
-    for N in (400, 1000):
+    for N in (400, 1020):
         for n in (N // 2, N // 4, 3, 1):
             for hits in (N // 2, N // 4, N // 3, N - 5, 1):
                 out.append((n, N, hits))
@@ -556,8 +560,8 @@ def check_bigweights(ctx, triples, res):
                         bad = 'entry %d is %r, the exact weight is 0' % (i, w[i]); break
                     continue
                 e = Fraction(num, comb(n, j))
-                if e < Fraction(1, 10 ** 305):
-                    continue                    # below the normal float64 range: underflow is legitimate
+                if e < Fraction(1, 10 ** 307):
+                    continue                    # at / below the end of the normal float64 range (2.2e-308): underflow is legitimate
                 if abs(Fraction(w[i]) - e) > Fraction(1, 10 ** 10) * e:
                     bad = 'entry %d is %r, the exact weight is %r' % (i, w[i], float(e)); break
         if bad:
@@ -565,7 +569,7 @@ def check_bigweights(ctx, triples, res):
             if nbad <= 3:
                 ctx.violation('_cached_projection(%d, %d, %d) is not the hypergeometric weight vector (positive exactly on the window, 1e-10 relative): %s' % (m, n, j, bad),
                               data={'kind': 'bigweights', 'triple': [m, n, j], 'impl': w})
-    ctx.obligation('predicate: _cached_projection at proj_from 400 / 1000: positive exactly where C(m,i)C(n-m,j-i) > 0, values within 1e-10 (%d vectors)' % len(triples),
+    ctx.obligation('predicate: _cached_projection at proj_from 400 / 1020: positive exactly where C(m,i)C(n-m,j-i) > 0, values within 1e-10 (%d vectors)' % len(triples),
                    nbad == 0, 'predicate')
 
 
@@ -771,6 +775,8 @@ def check_spectra(ctx, cases, res):
                      {'impl_mask': got['mask'], 'expected_mask': exp, 'wrong_flat_indices': bad[:40]})
                 break
         # ---- correspondence case (model sees the actual input the implementation saw)
+        if lg and lg['N'] > 200:
+            continue        # unary sample sizes above a few hundred are not for vm_compute: Python-side predicates only
         n = len(meta)
         meta[n] = c
         if lg:
@@ -860,9 +866,16 @@ def run(ctx):
                 'evaluated in shuffled order through the module cache, twice, after a call history of _from_count_dict runs (1-3 populations, counts > 1) that use the same cache keys; spectra: dimension 1-4, per-axis sizes 0..12 (1-D up to 60), '
                 'non-negative dyadic data with zeros, random masks (p in 0..0.3, corners optional), folded (built by fold(), optional extra masks) '
                 'or unfolded, target sizes incl. 0 / unchanged axes, an intermediate size vector, an axis order; refused inputs (upward, wrong length); '
-                'neutral spectrum: all (n, m) small, random up to 200.  distinct = distinct generated input; non-trivial = at least one axis shrinks')
+                'neutral spectrum: all (n, m) small, random up to 200.  LARGE AXES, systematic in every tier: one axis of sample size 56, 64, 80, 120, 200 '
+                '(1-D, and 2-D with the large axis first or last), folded and unfolded, masks {none, one entry at N/2, one at N/4, three isolated, dense random} x '
+                'targets {N/2, N/4, 3, 1} on that axis, data {one non-zero entry down to 2^-760, one 2^650 spike among 2^-650, magnitudes 2^-650..2^650, counts}, '
+                'each one-stage, two-stage, one axis at a time, fold identities; sample size 1020 (1-D) with masks {none, N/2, N/4}; weight vectors at 400 and 1020; '
+                'thorough tier or a changed formula line of the projection code: more sizes, both 2-D layouts and one masked entry at every position for sizes 56..400.  '
+                'distinct = distinct generated input; non-trivial = at least one axis shrinks')
     ctx.assumptions += ['float64 weights exp(lnC+lnC-lnC) via gammaln are compared with the exact rational at 1e-11 relative (observed <= 1e-13)',
                         'data are non-negative (counts), so entrywise relative comparison of sums is well conditioned',
+                        'large axes: the mask is compared exactly with (a) the support C(n,i)C(N-n,j-i) > 0 in integer arithmetic (right-hand side of C08_mask_spreads_exactly) and (b) for sizes <= 200 the model mask through project_mask (C08_mask_only_evaluation_is_model_mask); the data with exact rationals on the tail / window-edge / bulk entries of the large axis at 1e-11 (1e-10 for sample size 1020, where the log-gamma weights carry 3e-12), the exact-Q Coq data model only for sizes <= 64 (three binomials per entry pair on binary integers)',
+                        'weight * value stays a normal float64 in every generated case (no legitimate underflow): values >= 2^-760 at sizes <= 200, >= 1 at size 1020',
                         'fold/unfold are modelled only as far as Spectrum.project uses them; their own algebra is C09']
     ctx.trusted += ['MathComp binomial.v (Vandermonde, mul_bin_diag, mul_bin_down, bin_sub, bin_gt0) for the integer identities']
     broken = source_obligations(ctx)
